@@ -31,7 +31,7 @@ func classifySendErr(err error) string {
 	switch {
 	case err == nil:
 		return "nil"
-	case err == context.Canceled:
+	case isCtxErr(err):
 		return "ctx"
 	case err == stream.ErrClosedPipe:
 		return "closed"
@@ -154,7 +154,7 @@ func runPipe(c *Case) *Obs {
 					h.add("ret-next", "end")
 				case err == errPipeSender:
 					h.add("ret-next", "serr")
-				case err == context.Canceled:
+				case isCtxErr(err):
 					h.add("ret-next", "ctx")
 				default:
 					h.add("ret-next", "other:"+err.Error())
